@@ -332,7 +332,13 @@ func (s *indexKVStore) getOrCreateValue(bucketID uint32, key []byte,
 			return 0, false, false, err
 		}
 		if bucket != nil {
-			s.bucketCache.Add(bucketID, bucket)
+			// don't cache the bucket loaded from an outdated snapshot(flush swaps snapshot and purges cache),
+			// else values persisted by that flush cannot be found until the cache entry expires.
+			s.lock.RLock()
+			if s.flushes == flushes {
+				s.bucketCache.Add(bucketID, bucket)
+			}
+			s.lock.RUnlock()
 		}
 	}
 	if bucket != nil {
